@@ -7,7 +7,7 @@ PREDICATE = 'C09'
 LEAN_TARGETS = ['LLTD.Props.C09']
 VARIANT = 'plain'
 RULE = ('two interface contexts with identical attributes in one process: arbitrary history h (valid sessions, mutations, noise; '
-        'platform attributes incl. the icon changed with `set`/`glob`, in particular right before the Reset) on context 0, a ToS-0 Reset, '
+        'platform attributes incl. the icon changed with `set`/`glob`, in particular right before the Reset; single frames during which the address / MTU query fails or the interface has another address) on context 0, a ToS-0 Reset, '
         'then a continuation c (sessions incl. QueryLargeTlv of every cached property, Queries, Emits) delivered to both contexts with '
         'zero-filled buffer tails; the reactions are compared frame by frame; non-trivial = the continuation produced at least 3 '
         'transmits; distinct = distinct projected transcript')
@@ -28,7 +28,14 @@ def cases(rng, tier, X):
         for f in history(rng, F.OWN, mtu):
             if clocked and rng.random() < 0.5:
                 ops.append('clock %d' % rng.choice(F.CLOCK_STEPS[:10]))     # time passes; in particular Resets a few milliseconds apart
+            hiccup = rng.random() < 0.08
+            if hiccup:
+                # the platform misbehaves for exactly this frame: the address / MTU query fails (any non-zero code), or the
+                # interface has another address for a moment — nothing of it may outlive the Reset
+                ops.append(rng.choice(['set 0 getfail=2', 'set 0 getfail=1', 'set 0 getfail=3', 'set 0 mac=%s' % F.OWN2]))
             ops.append('rx 0 %s%s' % (f, rng.choice(['', ' zero'])))
+            if hiccup:
+                ops.append('set 0 getfail=0 mac=%s' % F.OWN)
             if rng.random() < 0.05:
                 ops.append('glob icon=%s' % rng.choice(['gen:300:7', 'gen:900:8', 'none']))
         if rng.random() < 0.6:
